@@ -299,7 +299,9 @@ def tempfile_decorator(func):
             finally:
                 # The cache file can already be gone, e.g. when overwriting it
                 # failed half way: don't let the cleanup mask the real error
-                if os.path.exists(f.name):
+                # (asking os.path.exists first would also skip the removal when the
+                # file is there but cannot be stat'ed)
+                with contextlib.suppress(FileNotFoundError):
                     os.unlink(f.name)
 
         else:
